@@ -136,11 +136,15 @@ structure St where
   plus : Bool := false
   lastKey : Bytes := []
   lastStrKey : Bytes := []
-  inFast : Bool := false             -- inside the integer loop that `valDigit` starts (same buffer)
-  tokFast : Bool := false            -- the pending token started in the current buffer
-  nlSkipping : Bool := false         -- inside the skip loop after a newline (same buffer)
   feat : List Char := []             -- which pinned deviations the run went through (for the harness)
   deriving Inhabited
+
+/-- where the fast paths of `parseBuffer` stand; they end with the read buffer -/
+structure Fast where
+  inFast : Bool := false             -- inside the integer loop that `valDigit` starts
+  tokFast : Bool := false            -- the pending token started in the current buffer
+  nlSkipping : Bool := false         -- inside the skip loop after a newline
+  deriving Inhabited, DecidableEq
 
 def St.addFeat (s : St) (c : Char) : St :=
   if s.feat.contains c then s else { s with feat := c :: s.feat }
@@ -281,13 +285,13 @@ def startP (s : St) (idx : Nat) (m : Item) : St :=
 
 /-- the `switch p.mode[b]` of `sen.Parser.parseBuffer`. Result: next state, "the case ends with
 `continue`", "the byte was counted as a newline". -/
-def stepActP (s : St) (b : UInt8) : Except ErrKind (St × Bool × Bool) :=
+def stepActP (s : St) (inFast : Bool) (b : UInt8) : Except ErrKind (St × Bool × Bool) :=
   match T.act s.mode b with
-  | .skipNewline => .ok ({ s with nlSkipping := cfg.nlSkip }, true, true)
-  | .cskipNewline => .ok ({ s with nlSkipping := cfg.nlSkip, mode := .ccomment }, true, true)
+  | .skipNewline => .ok (s, true, true)
+  | .cskipNewline => .ok ({ s with mode := .ccomment }, true, true)
   | .tokenStart =>
     if T.act .token b = .tokenOk then
-      .ok ({ s with tmp := [b], mode := .token, tokFast := cfg.tokSlow }, true, false)
+      .ok ({ s with tmp := [b], mode := .token }, true, false)
     else .error .hang     -- `addTokenWith("")`, `off--`: the same byte again
   | .strOk => .ok ({ s with tmp := b :: s.tmp }, false, false)
   | .colonColon => .ok ({ s with mode := .value }, true, false)
@@ -311,7 +315,7 @@ def stepActP (s : St) (b : UInt8) : Except ErrKind (St × Bool × Bool) :=
         pure (s2, false, false)
     | _ => .error .objClose
   | .valDigit =>
-    .ok ({ s with mode := .digit, num := { s.num.reset with i := (b - 48).toUInt64 }, inFast := cfg.fastInt }, false, false)
+    .ok ({ s with mode := .digit, num := { s.num.reset with i := (b - 48).toUInt64 } }, false, false)
   | .valQuote => .ok ({ s with quoteDelim := b, tmp := [], mode := .string }, true, false)
   | .numSpc => do
     let s1 ← s.add s.num.asNum.toJV
@@ -352,7 +356,7 @@ def stepActP (s : St) (b : UInt8) : Except ErrKind (St × Bool × Bool) :=
     pure ({ s1 with mode := .value }, false, false)
   | .tokenNlColon => do
     let s1 ← s.addTokenP s.tmp.reverse
-    pure ({ s1 with nlSkipping := cfg.nlSkip }, false, true)
+    pure (s1, false, true)
   | .valPlus =>
     .ok (({ s with mode := .plus, plus := true, lastStrKey := s.lastKey } : St).addFeat 'p', false, false)
   | .strQuote =>
@@ -366,17 +370,16 @@ def stepActP (s : St) (b : UInt8) : Except ErrKind (St × Bool × Bool) :=
     -- happens as soon as `BigLimit <= I`, one digit earlier than `AddDigit` would (pinned: the suite
     -- expects 9223372036854775807 as json.Number)
     .ok ({ s with
-      num := if s.inFast then
+      num := if inFast then
                (if BigLimit ≤ s.num.i then s.num.fillBig.addDigit b
                 else { s.num with i := s.num.i * 10 + (b - 48).toUInt64 })
              else s.num.addDigit b,
-      inFast := s.inFast && !(BigLimit ≤ s.num.i),
-      feat := if s.inFast && BigLimit ≤ s.num.i && s.num.i.toNat * 10 + (b - 48).toNat ≤ 9223372036854775807
+      feat := if inFast && BigLimit ≤ s.num.i && s.num.i.toNat * 10 + (b - 48).toNat ≤ 9223372036854775807
               then (s.addFeat 'i').feat else s.feat }, false, false)
   | .negDigit => .ok ({ s with num := s.num.addDigit b, mode := .digit }, false, false)
   | .numNewline => do
     let s1 ← s.add s.num.asNum.toJV
-    pure ({ s1 with mode := .value, nlSkipping := cfg.nlSkip }, false, true)
+    pure ({ s1 with mode := .value }, false, true)
   | .expSign =>
     .ok ({ s with mode := .expZero,
                   num := { s.num with big := if 0 < s.num.big.length then s.num.big ++ [b] else s.num.big,
@@ -462,10 +465,10 @@ def St.flushCloseT (s : St) : Except ErrKind St :=
 for (`valPlus`, `openParen`, `closeParen`, the C-comment codes) fall through it: nothing happens. -/
 def stepActT (s : St) (b : UInt8) : Except ErrKind (St × Bool × Bool) :=
   match T.act s.mode b with
-  | .skipNewline => .ok ({ s with nlSkipping := cfg.nlSkip }, true, true)
+  | .skipNewline => .ok (s, true, true)
   | .tokenStart =>
     if T.act .token b = .tokenOk then
-      .ok ({ s with tmp := [b], mode := .token, tokFast := cfg.tokSlow }, true, false)
+      .ok ({ s with tmp := [b], mode := .token }, true, false)
     else .error .hang
   | .strOk => .ok ({ s with tmp := b :: s.tmp }, false, false)
   | .colonColon => .ok ({ s with mode := .value }, true, false)
@@ -513,7 +516,7 @@ def stepActT (s : St) (b : UInt8) : Except ErrKind (St × Bool × Bool) :=
   | .tokenOk => .ok ({ s with tmp := b :: s.tmp }, false, false)
   | .tokenSpc => .ok (s.addTokenT s.tmp.reverse, false, false)
   | .tokenColon => .ok ({ (s.addTokenT s.tmp.reverse) with mode := .value }, false, false)
-  | .tokenNlColon => .ok ({ (s.addTokenT s.tmp.reverse) with nlSkipping := cfg.nlSkip }, false, true)
+  | .tokenNlColon => .ok (s.addTokenT s.tmp.reverse, false, true)
   | .strQuote =>
     -- no `quoteDelim` in the tokenizer: either quote ends the string (`quoteDelim` is kept as a ghost
     -- field to say when that differs from the parser)
@@ -523,7 +526,7 @@ def stepActT (s : St) (b : UInt8) : Except ErrKind (St × Bool × Bool) :=
   | .negDigit => .ok ({ s with num := s.num.addDigit b, mode := .digit }, false, false)
   | .numNewline => do
     let s1 ← s.handleNumT
-    pure ({ s1 with mode := .value, nlSkipping := cfg.nlSkip }, false, true)
+    pure ({ s1 with mode := .value }, false, true)
   | .expSign =>
     .ok ({ s with mode := .expZero,
                   num := { s.num with big := if 0 < s.num.big.length then s.num.big ++ [b] else s.num.big,
@@ -569,53 +572,61 @@ def deliver (s : St) : Except ErrKind St :=
     else deliverP cfg s
   else .ok s
 
-def stepAct (s : St) (b : UInt8) : Except ErrKind (St × Bool × Bool) :=
-  if cfg.tokenizer then stepActT T cfg s b else stepActP T cfg s b
+def stepAct (s : St) (inFast : Bool) (b : UInt8) : Except ErrKind (St × Bool × Bool) :=
+  if cfg.tokenizer then stepActT T cfg s b else stepActP T cfg s inFast b
+
+/-- how the case taken moves the fast paths (`a` = the table action, `i` = `p.num.I` before the byte) -/
+def nextFast (a : Act) (i : UInt64) (f : Fast) : Fast :=
+  match a with
+  | .skipNewline => { inFast := false, tokFast := f.tokFast, nlSkipping := cfg.nlSkip }
+  | .tokenNlColon => { inFast := false, tokFast := f.tokFast, nlSkipping := cfg.nlSkip }
+  | .numNewline => { inFast := false, tokFast := f.tokFast, nlSkipping := cfg.nlSkip }
+  | .cskipNewline => { inFast := false, tokFast := f.tokFast, nlSkipping := cfg.nlSkip && !cfg.tokenizer }
+  | .tokenStart => { inFast := false, tokFast := cfg.tokSlow, nlSkipping := false }
+  | .valDigit => { inFast := cfg.fastInt && !cfg.tokenizer, tokFast := f.tokFast, nlSkipping := false }
+  | .numDigit => { inFast := f.inFast && !(BigLimit ≤ i), tokFast := f.tokFast, nlSkipping := false }
+  | _ => { inFast := false, tokFast := f.tokFast, nlSkipping := false }
 
 /-- the switch, then the end-of-document test unless the case ended with `continue` -/
-def stepCore (s : St) (b : UInt8) : Except ErrKind (St × Bool) :=
-  match stepAct T cfg s b with
+def stepCore (s : St) (f : Fast) (b : UInt8) : Except ErrKind (St × Fast × Bool) :=
+  match stepAct T cfg s f.inFast b with
   | .error e => .error e
   | .ok (s1, cont, nl) =>
-    let keep := match T.act s.mode b with
-      | .numDigit => s1.inFast
-      | .valDigit => s1.inFast
-      | _ => false
-    if cont then .ok ({ s1 with inFast := keep }, nl)
+    if cont then .ok (s1, nextFast cfg (T.act s.mode b) s.num.i f, nl)
     else
       match deliver T cfg s1 with
       | .error e => .error e
-      | .ok s2 => .ok ({ s2 with inFast := keep }, nl)
+      | .ok s2 => .ok (s2, nextFast cfg (T.act s.mode b) s.num.i f, nl)
 
 def isWsNl (b : UInt8) : Bool := b = 32 || b = 9 || b = 13 || b = 10
 
 /-- a token that is complete inside one read buffer: `addTokenWith`, the end-of-document test, and the
 ending byte once more in the new mode (`off--`); `(` opens a token function -/
-def tokenEndFast (s : St) (b : UInt8) : Except ErrKind (St × Bool) :=
+def tokenEndFast (s : St) (f : Fast) (b : UInt8) : Except ErrKind (St × Fast × Bool) :=
   if b = 40 && !cfg.tokenizer then
-    .ok ((startP { s with tokFast := false } s.stack.length (.fnMark s.tmp.reverse)).addFeat 'f', false)
+    .ok ((startP s s.stack.length (.fnMark s.tmp.reverse)).addFeat 'f', { f with tokFast := false }, false)
   else
     let r := if cfg.tokenizer then .ok (s.addTokenT s.tmp.reverse) else s.addTokenP s.tmp.reverse
     match r with
     | .error e => .error e
     | .ok s1 =>
-      match deliver T cfg { s1 with tokFast := false } with
+      match deliver T cfg s1 with
       | .error e => .error e
-      | .ok s2 => stepCore T cfg s2 b
+      | .ok s2 => stepCore T cfg s2 { f with tokFast := false } b
 
 /-- one byte of `parseBuffer` / `tokenizeBuffer`; `lastInBuf` = the byte is the last one of the read
 buffer; the Boolean of the result is "counted as a newline" -/
-def step (s : St) (b : UInt8) (lastInBuf : Bool) : Except ErrKind (St × Bool) :=
-  if s.nlSkipping && T.act .space b = .skipChar && !lastInBuf then
+def step (s : St) (f : Fast) (b : UInt8) (lastInBuf : Bool) : Except ErrKind (St × Fast × Bool) :=
+  if f.nlSkipping && T.act .space b = .skipChar && !lastInBuf then
     -- `for i, b = range buf[off+1:] { if spaceMap[b] != skipChar { break } }; off += i`: when the loop
     -- runs to the end of the buffer its last byte is read again by the main loop
-    .ok (if T.act s.mode b = .skipChar then s else s.addFeat 'm', false)
-  else if s.mode = .token && T.act .token b ≠ .tokenOk && (s.tokFast || !cfg.tokSlow) then
-    tokenEndFast T cfg { s with nlSkipping := false } b
+    .ok (if T.act s.mode b = .skipChar then s else s.addFeat 'm', f, false)
+  else if s.mode = .token && T.act .token b ≠ .tokenOk && (f.tokFast || !cfg.tokSlow) then
+    tokenEndFast T cfg s { f with nlSkipping := false } b
   else
     stepCore T cfg
-      (if s.mode = .token && T.act .token b ≠ .tokenOk && !isWsNl b then ({ s with nlSkipping := false } : St).addFeat 'k'
-       else { s with nlSkipping := false }) b
+      (if s.mode = .token && T.act .token b ≠ .tokenOk && !isWsNl b then s.addFeat 'k' else s)
+      { f with nlSkipping := false } b
 
 /-! ## positions, buffers, entry points -/
 
@@ -646,22 +657,20 @@ def cellFeat (s : St) (b : UInt8) : St :=
   | _ => s
 
 /-- the bytes of one read buffer -/
-def runBytes (s : St) (p : Pos) : Bytes → Except Err (St × Pos)
-  | [] => .ok (s, p)
+def runBytes (s : St) (f : Fast) (p : Pos) : Bytes → Except Err (St × Fast × Pos)
+  | [] => .ok (s, f, p)
   | b :: r =>
-    match step T cfg s b r.isEmpty with
+    match step T cfg s f b r.isEmpty with
     | .error k => .error (p.err k (cellFeat T cfg s b).feat s.plus s.lastStrKey)
-    | .ok (s', nl) => runBytes s' (p.next nl) r
+    | .ok (s', f', nl) => runBytes s' f' (p.next nl) r
 
-/-- the fast paths end with the read buffer -/
-def St.endBuffer (s : St) : St := { s with inFast := false, tokFast := false, nlSkipping := false }
-
+/-- the read buffers one after the other: the fast paths end with the buffer, `off` restarts -/
 def runChunks (s : St) (p : Pos) : List Bytes → Except Err (St × Pos)
   | [] => .ok (s, p)
   | c :: rest =>
-    match runBytes T cfg s { p with off := 0 } c with
+    match runBytes T cfg s {} { p with off := 0 } c with
     | .error e => .error e
-    | .ok (s', p') => runChunks s'.endBuffer p' rest
+    | .ok (s', _, p') => runChunks s' p' rest
 
 /-- what a call returns: documents (parser) or callbacks (tokenizer), the deviations met, and the
 `plus` flag the Parser is left with -/
@@ -708,8 +717,7 @@ behind: `Parse`/`ParseReader` (and `Tokenizer.Parse`/`Load`) reset `stack`, `tmp
 `noff`, `line`, `mode`, `mi` (and `cb`, `resultChan`, `OnlyOne`, `num.Conv`, which are arguments of the
 call here); `ri`, `rn`, `num`, `quoteDelim`, `lastKey`, `lastStrKey`, `exkey` and `plus` are NOT reset. -/
 def St.entry (prev : St) : St :=
-  { prev with mode := .value, starts := [], stack := [], docs := [], evs := [], tmp := [],
-              inFast := false, tokFast := false, nlSkipping := false, feat := [] }
+  { prev with mode := .value, starts := [], stack := [], docs := [], evs := [], tmp := [], feat := [] }
 
 /-- entry point on an instance left in state `prev`: `chunks` are the successive read results (one
 chunk for the `[]byte` entry points) -/
